@@ -53,10 +53,13 @@ Same == /\ IsEv("same") /\ E.exc = "" /\ UNCHANGED H
         /\ (Mode = "hash" => (E.eq = 1 /\ E.eqr = 1 /\ E.h = E.h2))
         /\ (Mode = "cmp" => (E.eq = 1 /\ E.eqr = 1))                   \* built from the same bindings: equal in both directions
 (* the script states a < b (containers are not described from memory here: a walk that skips entries cannot hide) *)
+(* both directions of one comparison: opposite signs, the same answer to eq, both raise or neither *)
+Anti == /\ IsEv("anti") /\ UNCHANGED H
+        /\ E.exc = E.exc2 /\ (E.exc = "" => (E.r1 = -E.r2 /\ E.eq1 = E.eq2 /\ (E.eq1 = 1 <=> E.r1 = 0)))
 Less == /\ IsEv("less") /\ E.exc = "" /\ UNCHANGED H
         /\ E.r1 = -1 /\ E.r2 = 1 /\ E.lt = 1 /\ E.gt = 1 /\ E.eq = 0
 
-Next == Plain \/ Cmp \/ CmpAlien \/ Hash \/ Copy \/ Swap \/ Same \/ Less
+Next == Plain \/ Cmp \/ CmpAlien \/ Hash \/ Copy \/ Swap \/ Same \/ Anti \/ Less
 Spec == Init /\ [][Next]_vars
 Accepted == LET d == TLCGet("stats").diameter IN
             /\ PrintT(<<"TRACE_MATCHED", d - 1, Len(T)>>)
